@@ -392,6 +392,14 @@ def gen(rng, tier):
                  10 ** 11, 10 ** 12 - 1, 8 ** 6, 16 ** 9 - 1, 2 ** 69, 2 ** 70 - 1]
         if thorough:
             fvals += [limbs_value(rng, BIGBASE), limbs_value(rng, BIGBASE + 1), rng.randrange(1 << 20), rng.randrange(1 << 64)]
+        # long texts (a formatter that treats "long" output separately — no padding can apply, write the digits
+        # directly — is only wrong there; C06-u1 forgot the `+` flag for >= 1024 digit characters): values whose text has
+        # 255/256/257, 1023/1024/1025 and ~1500 characters in base 10, 16, 8 and 2
+        for base in (10, 16, 8, 2):
+            for n in (255, 256, 257, 1023, 1024, 1025, 1500):
+                if thorough or rng.randrange(2) == 0 or n in (1024, 1500):
+                    fvals.append(base ** (n - 1) + rng.randrange(base ** 8))
+            fvals.append(base ** 1024 - 1)
         for v in fvals:
             for fid in range(NFMT):
                 if thorough or rng.randrange(3) == 0 or v in (0, 255):
